@@ -66,6 +66,18 @@ func pauseBefore(i int) {
 	}
 }
 
+// silenceMs: pauses with a meaning in MIDI practice (active sensing: a receiver may assume the connection
+// lost after 300 ms of silence, senders repeat FE within 270..330 ms) and round values beyond
+var silenceMs = []int{270, 299, 300, 301, 329, 330, 331, 332, 400, 500, 999, 1000, 1001, 2000, 5000, 10_000, 60_000}
+
+// liveDelta draws the time before a delivery: mostly below max ms, every tenth from silenceMs.
+func liveDelta(r *mon.Rand, max int) int32 {
+	if r.P(1, 10) {
+		return int32(silenceMs[r.Intn(len(silenceMs))])
+	}
+	return int32(r.Intn(max))
+}
+
 // runL1 feeds the chunks to a drivers.Reader and records every callback.
 func runL1(cfg liveCfg, chunks [][]byte, deltas []int32, out []obs) []obs {
 	out = out[:0]
